@@ -19,33 +19,33 @@ BOUNDED = ['lfu', 'lru', 'mru', 'rr']
 
 B3 = ['lfu', 'lru', 'mru', 'rr'] * 3
 SPECS = {
-    'C01': dict(quick=(900, 70), thorough=(12000, 110), focus={'p_twin': 0.3}),
-    'C02': dict(quick=(1000, 70), thorough=(12000, 110),
+    'C01': dict(quick=(900, 70), thorough=(60000, 110), focus={'p_twin': 0.3}),
+    'C02': dict(quick=(1000, 70), thorough=(60000, 110),
                 focus={'weights': {'clear': 0.5, 'setarch': 0.5, 'archived': 0.5, 'archset': 6}, 'p_prologue': 0.5,
                        'p_detach': 0.03, 'p_restage': 0.03, 'algs': ['no', 'inf'] + B3,
                        'backends': ['plain', 'dictarch', 'dictarch', 'dictarch', 'dictarch', 'file', 'dir', 'sql', 'null'],
                        'maxsizes': [1, 1, 2, 2, 3, 3, 4, 5]}),
-    'C05': dict(quick=(1400, 60), thorough=(12000, 100),
+    'C05': dict(quick=(1400, 60), thorough=(60000, 100),
                 focus={'weights': {'load': 9, 'archset': 8, 'clear': 1}, 'p_prologue': 0.6, 'p_special': 0.15, 'p_loadfill': 0.3,
                        'algs': ['no', 'inf'] + B3, 'p_detach': 0.3, 'maxsizes': [1, 1, 2, 2, 3, 4, 5, 10]}),
-    'C06': dict(quick=(800, 140), thorough=(10000, 220),
+    'C06': dict(quick=(800, 140), thorough=(50000, 220),
                 focus={'algs': BOUNDED, 'maxsizes': [1, 1, 2, 2, 3, 4, 5], 'p_special': 0.05, 'p_raising': 0.1,
                        'weights': {'call': 90, 'load': 1, 'dump': 1, 'clear': 0.3, 'archived': 0.5, 'setarch': 0.3,
                                    'archset': 1, 'lookup': 1, 'key': 1, 'info': 1}, 'p_prologue': 0.1}),
-    'C07': dict(quick=(900, 70), thorough=(12000, 110),
+    'C07': dict(quick=(900, 70), thorough=(60000, 110),
                 focus={'backends': ['dictarch', 'dictarch', 'dictarch', 'file', 'dir', 'sql'],
                        'algs': ['no', 'no'] + BOUNDED * 2 + ['inf'], 'maxsizes': [1, 2, 2, 3, 4, 5],
                        'weights': {'clear': 1, 'setarch': 1, 'archived': 1, 'archset': 7}, 'p_restage': 0.25, 'p_stale': 0.35}),
-    'C15': dict(quick=(900, 70), thorough=(10000, 110),
+    'C15': dict(quick=(900, 70), thorough=(50000, 110),
                 focus={'weights': {'clear': 5, 'info': 6}, 'p_special': 0.6, 'p_special_call': 0.2,
                        # the degraded paths of the safe decorators: key generation fails (hash of a list) / the key is unhashable (raw)
                        'keymaps': ['hash', 'hash', 'hash', 'raw', 'raw', 'str', 'md5', 'default', 'pickle', 'hash-typed', 'str-nf',
                                    'md5-typed', 'pickle-std', 'raw-typed']}),
-    'C16': dict(quick=(1000, 60), thorough=(12000, 100),
+    'C16': dict(quick=(1000, 60), thorough=(60000, 100),
                 focus={'p_raising': 0.9, 'p_special': 0.85,
                        'keymaps': ['hash', 'raw', 'raw', 'str', 'pickle', 'md5', 'default', 'raw-nf', 'str-nf',
                                    'pickle-std', 'pickle-std', 'pickle-std']}),
-    'C18': dict(quick=(800, 60), thorough=(10000, 100),
+    'C18': dict(quick=(800, 60), thorough=(50000, 100),
                 focus={'weights': {'lookup': 14, 'key': 10, 'info': 4}, 'p_special': 0.4, 'p_float': 0.4}),
 }
 
